@@ -626,6 +626,7 @@ class World:
                 try:
                     _zc_engine.AsyncEngine._async_cache_cleanup(self.engine)
                 finally:
+                    obs["ticks"] = _TICKING[0]      # clock readings during the op (each 1 ms later than the one before)
                     _TICKING[0] = None
             elif k == "LA":
                 self.rm.async_add_listener(self.listener(op[1]), None)
